@@ -24,7 +24,7 @@
 typedef struct ae_chan {
   int kind;                 /* bit0: double samples; 8: variable-rate capable */
   int created, closed, flushing, id;
-  unsigned in_calls, out_calls, proc_calls, flush_calls, setratio_calls;
+  unsigned in_calls, out_calls, proc_calls, flush_calls, setratio_calls, out_after_flush, proc_after_flush;
   size_t in_total, out_total;
   void * inbuf; size_t inbuf_n;
   void * outbuf;
@@ -86,7 +86,7 @@ static void ae_process(void * p, size_t olen)
   ae_touch();
   VF_ASSERT(c->created && !c->closed, "engine process: object is live");
   ae_commit(c);
-  ++c->proc_calls; ++ae_total_proc_calls;
+  ++c->proc_calls; ++ae_total_proc_calls; if (c->flushing) ++c->proc_after_flush;
 }
 
 static sample_t const * ae_output(void * p, sample_t * samples, size_t * n)
@@ -96,7 +96,7 @@ static sample_t const * ae_output(void * p, sample_t * samples, size_t * n)
   VF_ASSERT(c->created && !c->closed, "engine output: object is live");
   ae_commit(c);
   avail = c->out_calls < AE_ROUNDS? in_ae_avail[c->out_calls] : 0;
-  ++c->out_calls; ++ae_total_out_calls;
+  ++c->out_calls; ++ae_total_out_calls; if (c->flushing) ++c->out_after_flush;
   got = *n < avail? *n : avail;
 #ifdef AE_FIXED_BUFS
   VF_ASSERT(got <= AE_FIXED_BUFS, "harness bound: engine output within AE_FIXED_BUFS");
